@@ -1,16 +1,23 @@
 ------------------------- MODULE TransportContractMC -------------------------
 (* Bounded configurations of TransportContract (X05).  Constants of the .cfg   *)
-(* files: Class, Ideal, KSet and the three call budgets below.                 *)
-(*   TransportContract_mc_<class>.cfg    the code as it is (Ideal = FALSE):    *)
-(*        every property the class is expected to satisfy + liveness           *)
-(*   TransportContract_ideal_<class>.cfg the contract as designed: T2, T3 too  *)
-(*   TransportContract_lead_*.cfg        must be VIOLATED (D1 / D3 found)      *)
-(*   TransportContract_cover_*.cfg       state graph dumped for graphwalk.py   *)
-(*   TransportContract_sim_*.cfg         larger budgets for -simulate          *)
+(* files: Class, Ideal, KSet, WMax / CMax and the three call budgets (A, B).   *)
+(*   _mc_<class>_q     1 Write, 1 Read, 1 Close per side     (both tiers)      *)
+(*   _mc_rdv_q2        2 concurrent Writes A->B, 2 Reads at B, 1 Close each    *)
+(*   _mc_<class>_t1/t2 2 Writes one way, 2 Reads at the receiver, 1 Close each *)
+(*   _mc_<class>_t3    1 Write, 1 Read per side, 2 Closes at A and 1 at B      *)
+(*   _mc_rdv_t4        2+1 Writes, 1+2 Reads, 1 Close each                     *)
+(*        the code as it is (Ideal = FALSE): T1, T5, T6, RestAll (= L1..L3 at  *)
+(*        rest) and those of T2 / T3 the class is expected to satisfy          *)
+(*   _ideal_<class>    the contract as designed (D1..D3 off): T2 and T3 too    *)
+(*   _lead_<class>_T2/T3  as implemented: T2 / T3 must be VIOLATED (D1 / D3)   *)
+(*   _live_<class>     FairSpec: L1..L3 as temporal properties, 1 Write        *)
+(*   _cover_<class>_q/t   state graph (VIEW CoverView) dumped for graphwalk.py *)
+(*   _sim_<class>      3 Writes, 3 Reads, 2 Closes per side for -simulate      *)
 EXTENDS TransportContract
 
 W00 == [A |-> 0, B |-> 0]
 W10 == [A |-> 1, B |-> 0]
+W01 == [A |-> 0, B |-> 1]
 W11 == [A |-> 1, B |-> 1]
 W20 == [A |-> 2, B |-> 0]
 W02 == [A |-> 0, B |-> 2]
